@@ -431,4 +431,340 @@ theorem t7_recv (now : Nat) (draws : List Nat) (c : Conn) (p : Packet) (alt : Un
       · exact hquiet _ rfl hf
       · exact hbody ack hf
 
+/-! ## own tokens are never `TOKEN_NONE` -/
+
+def OwnOk (c : Conn) : Prop := ∀ o, c.state.ownToken? = some o → o ≠ TOKEN_NONE
+
+theorem tokenRandom_ne' {draws : List Nat} {nt : Nat} (h : tokenRandom draws = some nt) : nt ≠ TOKEN_NONE := by
+  induction draws with
+  | nil => simp [tokenRandom] at h
+  | cons d ds ih =>
+    simp only [tokenRandom] at h
+    split at h
+    · injection h with h; subst h; assumption
+    · exact ih h
+
+theorem tickAction_own {env : Env} {c c' : Conn} {out : Out} (ht : tickAction env c = .ok (c', out)) :
+    c'.state.ownToken? = c.state.ownToken? := (tickAction_trans none ht).1
+
+theorem own_call_unc {now : Nat} {draws : List Nat} {s : Timeout} {cl : Call} {r : Ret Conn Packet}
+    (hr : P7.call now draws ⟨.unconnected, s⟩ cl = .ok r) : OwnOk r.conn := by
+  cases cl with
+  | connect =>
+    simp only [P7.call, connect] at hr
+    cases htk : tokenRandom draws with
+    | none => simp [htk] at hr
+    | some t =>
+      simp only [htk] at hr
+      split at hr
+      · cases hr
+      · rename_i c1 out hta
+        injection hr with hr; subst hr
+        intro o ho
+        have := tickAction_own hta
+        simp only at ho
+        rw [this] at ho
+        simp [State.ownToken?] at ho
+        subst ho
+        exact tokenRandom_ne' htk
+  | send d v => simp [P7.call, Conn7.send] at hr
+  | sendConnless d => simp [P7.call, Conn7.sendConnless] at hr
+  | flush => simp [P7.call, Conn7.flush] at hr
+  | tick =>
+    simp only [P7.call, Conn7.tick] at hr
+    split at hr
+    · cases hr
+    · rename_i c1 out hta
+      injection hr with hr; subst hr
+      simp only [Bool.false_eq_true, if_false] at hta
+      split at hta
+      · simp [tickAction] at hta
+        obtain ⟨rfl, _⟩ := hta
+        intro o ho; simp [State.ownToken?] at ho
+      · injection hta with hta; injection hta with h1 h2; subst h1
+        intro o ho; simp [State.ownToken?] at ho
+  | disconnect reason =>
+    simp only [P7.call, Conn7.disconnect] at hr
+    split at hr
+    · cases hr
+    · rename_i c1 out hd
+      injection hr with hr; subst hr
+      split at hd
+      · cases hd
+      · split at hd
+        · cases hd
+        · injection hd with hd; injection hd with h1 h2; subst h1
+          intro o ho; simp [State.ownToken?] at ho
+
+theorem ownok_call {now : Nat} {draws : List Nat} {c : Conn} {cl : Call} {r : Ret Conn Packet}
+    (h : OwnOk c) (hr : P7.call now draws c cl = .ok r) : OwnOk r.conn := by
+  have tr := trans_call7 now draws c cl r hr
+  cases ho : c.state.ownToken? with
+  | some o0 =>
+    intro o ho'
+    rcases tr.r2 o0 ho with h1 | h1
+    · rw [h1] at ho'; injection ho' with ho'; subst ho'; exact h o0 ho
+    · rw [h1] at ho'; simp [State.ownToken?] at ho'
+  | none =>
+    obtain ⟨st, snd⟩ := c
+    cases st with
+    | unconnected => exact own_call_unc hr
+    | disconnected =>
+      have := tr.r4 rfl
+      intro o ho'; rw [this] at ho'; simp [State.ownToken?] at ho'
+    | _ => simp [State.ownToken?] at ho
+
+theorem feedBody_own_unc {env : Env} {s : Timeout} {q : Packet} {c1 : Conn} {out : Out}
+    (hf : feedBody env ⟨.unconnected, s⟩ q = .ok (c1, out)) : OwnOk c1 := by
+  have hnoop : feedBody env ⟨.unconnected, s⟩ q = .ok (⟨.unconnected, s⟩, {}) → OwnOk c1 := by
+    intro hk
+    rw [hk] at hf
+    injection hf with hf; injection hf with e1 e2; subst e1
+    intro o ho; simp [State.ownToken?] at ho
+  cases q with
+  | connless a b d => exact hnoop (by simp [feedBody])
+  | chunks ack tk rr n cs => exact hnoop (by simp [feedBody])
+  | control ack tk ctl =>
+    cases ctl with
+    | keepAlive => exact hnoop (by simp [feedBody])
+    | accept => exact hnoop (by simp [feedBody])
+    | connect t => exact hnoop (by simp [feedBody])
+    | close reason =>
+      simp only [feedBody] at hf
+      injection hf with hf; injection hf with e1 e2; subst e1
+      intro o ho; simp [State.ownToken?] at ho
+    | token their =>
+      cases htk : tokenRandom env.draws with
+      | none => simp [feedBody, htk] at hf
+      | some t0 =>
+        simp only [feedBody, htk] at hf
+        split at hf
+        · cases hf
+        · injection hf with hf; injection hf with e1 e2; subst e1
+          intro o ho; simp [State.ownToken?] at ho; subst ho
+          exact tokenRandom_ne' htk
+
+theorem ownok_recv {now : Nat} {draws : List Nat} {c : Conn} {p : Packet} {r : Ret Conn Packet}
+    (h : OwnOk c) (hr : P7.recv now draws c p () = .ok r) : OwnOk r.conn := by
+  obtain ⟨rx, tr, _⟩ := trans_recv7 now draws c p () r hr
+  cases ho : c.state.ownToken? with
+  | some o0 =>
+    intro o ho'
+    rcases tr.r2 o0 ho with h1 | h1
+    · rw [h1] at ho'; injection ho' with ho'; subst ho'; exact h o0 ho
+    · rw [h1] at ho'; simp [State.ownToken?] at ho'
+  | none =>
+    obtain ⟨st, snd⟩ := c
+    cases st with
+    | disconnected =>
+      have := tr.r4 rfl
+      intro o ho'; rw [this] at ho'; simp [State.ownToken?] at ho'
+    | unconnected =>
+      unfold P7.recv at hr
+      split at hr
+      · cases hr
+      · rename_i c1 out hf
+        injection hr with hr; subst hr
+        simp only
+        have hq : ∀ (o : Out), (Except.ok ((⟨.unconnected, snd⟩ : Conn), o) : Res) = Except.ok (c1, out) → OwnOk c1 := by
+          intro o hk
+          injection hk with hk; injection hk with e1 e2; subst e1
+          intro o ho; simp [State.ownToken?] at ho
+        unfold feed at hf
+        cases p with
+        | connless a b d =>
+          simp only at hf
+          split at hf
+          · exact hq _ hf
+          · split at hf
+            · exact hq _ hf
+            · exact hq _ hf
+        | control ack tk ctl =>
+          simp only at hf
+          split at hf
+          · exact hq _ hf
+          · exact feedBody_own_unc hf
+        | chunks ack tk rr n cs =>
+          simp only at hf
+          split at hf
+          · exact hq _ hf
+          · exact feedBody_own_unc hf
+    | _ => simp [State.ownToken?] at ho
+
+/-! ## the world invariant -/
+
+def sentK (e : End proto7) (k : Nat) : Prop := ∃ dg ∈ e.out, kind dg.pkt = some k
+
+theorem sentK_book (e : End proto7) (r : Ret Conn Packet) (sub : List (Bytes × Bool)) (k : Nat) :
+    sentK (e.book r sub) k ↔ sentK e k ∨ ∃ p ∈ r.sent, kind p = some k := by
+  simp only [sentK, End.book, List.mem_append, List.mem_map]
+  constructor
+  · rintro ⟨dg, hdg | ⟨p, hp, rfl⟩, h⟩
+    · exact Or.inl ⟨dg, hdg, h⟩
+    · exact Or.inr ⟨p, hp, h⟩
+  · rintro (⟨dg, hdg, h⟩ | ⟨p, hp, h⟩)
+    · exact ⟨dg, Or.inl hdg, h⟩
+    · exact ⟨_, Or.inr ⟨p, hp, rfl⟩, h⟩
+
+theorem succOk_cases {a b : Nat} (h : succOk a b = true) :
+    a = b ∨ b = 6 ∨ (a = 0 ∧ (b = 1 ∨ b = 3)) ∨ (a = 1 ∧ b = 2) ∨ (a = 2 ∧ b = 5) ∨ (a = 3 ∧ b = 4) ∨
+      (a = 4 ∧ b = 5) := by
+  simp [succOk] at h
+  omega
+
+/-- what an endpoint has sent so far bounds its state from below -/
+structure H (e : End proto7) : Prop where
+  h0 : tag e.conn.state = 0 → e.out = []
+  h2 : sentK e 2 → tag e.conn.state = 2 ∨ tag e.conn.state = 5 ∨ tag e.conn.state = 6
+  h4 : sentK e 4 → tag e.conn.state = 4 ∨ tag e.conn.state = 5 ∨ tag e.conn.state = 6
+  h5 : sentK e 5 → tag e.conn.state = 5 ∨ tag e.conn.state = 6
+
+theorem H.act {e : End proto7} (h : H e) {r : Ret Conn Packet} {rx : Option Packet} {ic : Bool}
+    (t : T7 e.conn.state r.conn.state r.sent rx r.events ic) (sub : List (Bytes × Bool)) : H (e.book r sub) := by
+  have hg := succOk_cases t.g
+  refine ⟨?_, ?_, ?_, ?_⟩
+  · intro hb
+    have hb' : tag r.conn.state = 0 := hb
+    have ha : tag e.conn.state = 0 := by omega
+    have hs : r.sent = [] := by
+      cases hs : r.sent with
+      | nil => rfl
+      | cons x xs => exact absurd hb' (t.m0 (by rw [hs]; simp))
+    simp [End.book, h.h0 ha, hs]; rfl
+  · intro hs
+    show tag r.conn.state = 2 ∨ tag r.conn.state = 5 ∨ tag r.conn.state = 6
+    rcases (sentK_book e r sub 2).1 hs with h1 | ⟨p, hp, hk⟩
+    · have := h.h2 h1; omega
+    · have := t.m p hp 2 hk; omega
+  · intro hs
+    show tag r.conn.state = 4 ∨ tag r.conn.state = 5 ∨ tag r.conn.state = 6
+    rcases (sentK_book e r sub 4).1 hs with h1 | ⟨p, hp, hk⟩
+    · have := h.h4 h1; omega
+    · have := t.m p hp 4 hk; omega
+  · intro hs
+    show tag r.conn.state = 5 ∨ tag r.conn.state = 6
+    rcases (sentK_book e r sub 5).1 hs with h1 | ⟨p, hp, hk⟩
+    · have := h.h5 h1; omega
+    · have := t.m p hp 5 hk; omega
+
+/-- `fa`: `a` has called `connect`; `fb`: `b` has -/
+structure J (fa fb : Bool) (w : World proto7) : Prop where
+  ha : H w.a
+  hb : H w.b
+  oa : OwnOk w.a.conn
+  ob : OwnOk w.b.conn
+  ra : fa = true → (tag w.a.conn.state = 1 ∨ tag w.a.conn.state = 2 ∨ tag w.a.conn.state = 5 ∨ tag w.a.conn.state = 6) ∧
+    (tag w.a.conn.state = 5 → Event.ready ∈ w.a.events) ∧
+    (tag w.a.conn.state = 5 → tag w.b.conn.state = 4 ∨ tag w.b.conn.state = 5 ∨ tag w.b.conn.state = 6)
+  rb : fb = false → (tag w.b.conn.state = 0 ∨ tag w.b.conn.state = 3 ∨ tag w.b.conn.state = 4 ∨
+      tag w.b.conn.state = 5 ∨ tag w.b.conn.state = 6) ∧
+    (tag w.b.conn.state = 5 → tag w.a.conn.state = 5 ∨ tag w.a.conn.state = 6)
+  x1 : tag w.b.conn.state = 4 → tag w.a.conn.state = 2 ∨ tag w.a.conn.state = 5 ∨ tag w.a.conn.state = 6
+  x3 : tag w.a.conn.state = 2 → tag w.b.conn.state ≠ 0
+
+theorem J.actA {fa fb : Bool} {w : World proto7} (h : J fa fb w) {r : Ret Conn Packet} {rx : Option Packet} {ic : Bool}
+    (t : T7 w.a.conn.state r.conn.state r.sent rx r.events ic)
+    (hrx : ∀ q, rx = some q → ∃ dg ∈ w.b.out, dg.pkt = q) (ho : OwnOk r.conn)
+    (hic : ic = true → tag w.a.conn.state = 0 ∧ tag r.conn.state = 1) (sub : List (Bytes × Bool))
+    (w' : World proto7) (hwa : w'.a = w.a.book r sub) (hwb : w'.b = w.b) :
+    J (fa || ic) fb w' := by
+  have e1 : w'.a.conn.state = r.conn.state := by rw [hwa]; rfl
+  have e2 : w'.a.events = w.a.events ++ r.events := by rw [hwa]; rfl
+  have hg := succOk_cases t.g
+  obtain ⟨rc1, rc2, rc3, rc4, rc5⟩ := t.r
+  have hkb : ∀ k, (∃ q, rx = some q ∧ kind q = some k) → sentK w.b k := by
+    rintro k ⟨q, hq, hk⟩
+    obtain ⟨dg, hdg, hp⟩ := hrx q hq
+    exact ⟨dg, hdg, by rw [hp]; exact hk⟩
+  refine ⟨by rw [hwa]; exact h.ha.act t sub, by rw [hwb]; exact h.hb, by rw [hwa]; exact ho,
+    by rw [hwb]; exact h.ob, ?_, ?_, ?_, ?_⟩
+  · intro hf
+    rw [e1, e2, hwb]
+    cases ic with
+    | true =>
+      obtain ⟨h0, h1⟩ := hic rfl
+      exact ⟨by clear rc1 rc2 rc3 rc4 rc5; omega, by clear rc1 rc2 rc3 rc4 rc5; omega, by clear rc1 rc2 rc3 rc4 rc5; omega⟩
+    | false =>
+      have hfa : fa = true := by simpa using hf
+      obtain ⟨r1, r2, r3⟩ := h.ra hfa
+      refine ⟨by clear rc1 rc2 rc3 rc4 rc5; omega, ?_, ?_⟩
+      · intro h5
+        by_cases ha5 : tag w.a.conn.state = 5
+        · exact List.mem_append_left _ (r2 ha5)
+        · have ha2 : tag w.a.conn.state = 2 := by clear rc1 rc2 rc3 rc4 rc5; omega
+          exact List.mem_append_right _ (rc4 ha2 h5).2
+      · intro h5
+        by_cases ha5 : tag w.a.conn.state = 5
+        · exact r3 ha5
+        · have ha2 : tag w.a.conn.state = 2 := by clear rc1 rc2 rc3 rc4 rc5; omega
+          exact h.hb.h4 (hkb 4 (rc4 ha2 h5).1)
+  · intro hf
+    obtain ⟨s1, s2⟩ := h.rb hf
+    rw [e1, hwb]
+    refine ⟨s1, fun hb5 => ?_⟩
+    have := s2 hb5
+    clear rc1 rc2 rc3 rc4 rc5; omega
+  · rw [e1, hwb]
+    intro hb4
+    have := h.x1 hb4
+    clear rc1 rc2 rc3 rc4 rc5; omega
+  · rw [e1, hwb]
+    intro ha2'
+    by_cases ha : tag w.a.conn.state = 2
+    · exact h.x3 ha
+    · have ha1 : tag w.a.conn.state = 1 := by clear rc1 rc2 rc3 rc4 rc5; omega
+      have hne := rc5 ha1 ha2'
+      cases hrxv : rx with
+      | none => exact absurd hrxv hne
+      | some q =>
+        obtain ⟨dg, hdg, _⟩ := hrx q hrxv
+        intro hb0
+        rw [h.hb.h0 hb0] at hdg
+        simp at hdg
+
+theorem J.actB {fa fb : Bool} {w : World proto7} (h : J fa fb w) {r : Ret Conn Packet} {rx : Option Packet} {ic : Bool}
+    (t : T7 w.b.conn.state r.conn.state r.sent rx r.events ic)
+    (hrx : ∀ q, rx = some q → ∃ dg ∈ w.a.out, dg.pkt = q) (ho : OwnOk r.conn) (sub : List (Bytes × Bool))
+    (w' : World proto7) (hwa : w'.a = w.a) (hwb : w'.b = w.b.book r sub) :
+    J fa (fb || ic) w' := by
+  have e1 : w'.b.conn.state = r.conn.state := by rw [hwb]; rfl
+  have hg := succOk_cases t.g
+  obtain ⟨rc1, rc2, rc3, rc4, rc5⟩ := t.r
+  have hka : ∀ k, (∃ q, rx = some q ∧ kind q = some k) → sentK w.a k := by
+    rintro k ⟨q, hq, hk⟩
+    obtain ⟨dg, hdg, hp⟩ := hrx q hq
+    exact ⟨dg, hdg, by rw [hp]; exact hk⟩
+  refine ⟨by rw [hwa]; exact h.ha, by rw [hwb]; exact h.hb.act t sub, by rw [hwa]; exact h.oa,
+    by rw [hwb]; exact ho, ?_, ?_, ?_, ?_⟩
+  · intro hf
+    obtain ⟨r1, r2, r3⟩ := h.ra hf
+    rw [e1, hwa]
+    refine ⟨r1, r2, fun ha5 => ?_⟩
+    have := r3 ha5
+    clear rc1 rc2 rc3 rc4 rc5; omega
+  · intro hf
+    have hfb : fb = false := by cases fb <;> simp_all
+    have hicf : ic = false := by cases ic <;> simp_all
+    obtain ⟨s1, s2⟩ := h.rb hfb
+    have hn : ¬ (tag w.b.conn.state = 0 ∧ tag r.conn.state = 1) := by
+      rintro ⟨h0, h1⟩
+      have := rc1 h0 h1
+      rw [hicf] at this; cases this
+    rw [e1, hwa]
+    refine ⟨by clear rc1 rc2 rc3 rc4 rc5; omega, fun hb5 => ?_⟩
+    by_cases hb : tag w.b.conn.state = 5
+    · exact s2 hb
+    · have hb4 : tag w.b.conn.state = 4 := by clear rc1 rc2 rc3 rc4 rc5; omega
+      exact h.ha.h5 (hka 5 (rc3 hb4 hb5))
+  · rw [e1, hwa]
+    intro hb4'
+    by_cases hb : tag w.b.conn.state = 4
+    · exact h.x1 hb
+    · have hb3 : tag w.b.conn.state = 3 := by clear rc1 rc2 rc3 rc4 rc5; omega
+      exact h.ha.h2 (hka 2 (rc2 hb3 hb4'))
+  · rw [e1, hwa]
+    intro ha2
+    have := h.x3 ha2
+    clear rc1 rc2 rc3 rc4 rc5; omega
+
 end Tw.NetSim.P7
